@@ -1,3 +1,4 @@
 pub mod driver;
+pub mod gen;
 pub mod model;
 pub mod rt;
